@@ -26,6 +26,16 @@ CLAIMED = {
               "reference function written from the statement. The space is finite and is enumerated, not sampled."),
         note="Non-sanitized -O2 build of the same sources; X- mechanisms without credentials only; SHA-512 vs SHA3-512 order is a don't-care.",
         design_ref="§3 C05"),
+    "C09": dict(
+        category="model_checking", engine="bfs",
+        technique="explicit-state BFS over event histories of the real client (loopback TCP, scripted XEP-0198 server) with a reference model compared after every step",
+        text=("Breadth-first search over all histories of 24 events (sends, acks with stale/exact/beyond h, <r/>, inbound stanzas, drop, "
+              "resumed with any h, new session with/without SM) up to depth 7 with <= 2 drops (quick) / depth 8 (thorough); each "
+              "transition replays the history on a fresh QXmppClient over real loopback TCP and checks wire order/content, handled "
+              "counts and delivery reports against a 60-line reference model. States are de-duplicated on model + private fields."),
+        note=("Trusts the quiescence barrier for determinism (every 97th execution is re-run and must give the same canonical state); "
+              "dedup soundness is cross-checked without dedup at depth 3 in the thorough tier; classic <enable/> negotiation only."),
+        design_ref="§3 C09"),
     "C13": dict(
         category="exploration",
         technique="exhaustive enumeration of all operation sequences up to length L over the task/promise API against a reference model",
